@@ -66,7 +66,7 @@ static void o_ptr(const char *name, int k, SNode *p) {
    order, along `next` from `head`) and keeps it while it stays on some list; `links<k>=[id:data:next,...]` prints the
    actual next pointers through that table (`-` NULL, `?` a pointer to no listed node).  The Lean driver runs the
    pointer-level model (Model/PSList.lean) alongside and numbers its nodes in the same way, so L3 compares the link
-   structure and the identity of the nodes.  After an operation that has no pointer-level model (mk_*, iterator mutators)
+   structure and the identity of the nodes.  After an operation that has no pointer-level model (none at present)
    both sides renumber from scratch. */
 #define DCAP (1u << 19)
 typedef struct { SNode *p; unsigned long id; unsigned long gen; } DEnt;
@@ -160,8 +160,7 @@ static void do_op(Cmd *c) {
     int is_it = !strncmp(c->op, "it_", 3) || !strncmp(c->op, "zit_", 4);
     if (!is_it && !is_op(c, "observe")) it_kind = 0;
     {   /* operations without a pointer-level model: renumber the nodes afterwards (Driver/SList.lean: plUnsupported) */
-        static const char *un[] = {
-            "it_add", "it_remove", "it_replace", "zit_add", "zit_remove", "zit_replace", NULL };
+        static const char *un[] = { NULL };
         int k0 = (int)kv_u64(c, "o", 0), f0 = (int)kv_u64(c, "from", 1), t0 = (int)kv_u64(c, "to", 1);
         if (k0 >= 0 && k0 < NSLOT && f0 >= 0 && f0 < NSLOT && t0 >= 0 && t0 < NSLOT)
             for (int i = 0; un[i]; i++) if (is_op(c, un[i])) links_renumber = 1;
@@ -196,7 +195,10 @@ static void do_op(Cmd *c) {
             o("st=- ");
         } else if (is_op(c, "zit_new")) {
             int k2 = (int)kv_u64(c, "o2", 1);
-            if (k2 < 0 || k2 >= NSLOT || k2 == k || !l || !L[k2]) { it_kind = 0; o("st=- contract "); goto done; }
+            /* a zip iterator over the SAME list (o2 == o) is accepted: the header docs do not forbid it.  It is a known finding
+               (KF-list-zip-same-list: zip remove frees the node twice, the slist zip add loses a node); no generator emits it, the
+               Lean drivers answer "contract" and the lines are only run from corpus/<k>/defect_zip_same_list_*.ops */
+            if (k2 < 0 || k2 >= NSLOT || !l || !L[k2]) { it_kind = 0; o("st=- contract "); goto done; }
             it_kind = 3; it_o = k; it_o2 = k2; it_changed = 0;
             cc_slist_zip_iter_init(&zit, l, L[k2]);
             o("st=- ");
@@ -236,7 +238,8 @@ static void do_op(Cmd *c) {
     } else if (is_op(c, "add_last")) { o_stat(cc_slist_add_last(l, PTR(v))); o(" ");
     } else if (is_op(c, "add_at")) { o_stat(cc_slist_add_at(l, PTR(v), idx)); o(" ");
     } else if (is_op(c, "add_all") || is_op(c, "add_all_at") || is_op(c, "splice") || is_op(c, "splice_at")) {
-        if (from == k || !L[from]) { o("st=- contract "); goto done; }
+        /* add_all(l, l) / add_all_at(l, l, i) are legal (the list is doubled); splice(l, l) is not */
+        if (!L[from] || (from == k && (is_op(c, "splice") || is_op(c, "splice_at")))) { o("st=- contract "); goto done; }
         enum cc_stat st = is_op(c, "add_all") ? cc_slist_add_all(l, L[from]) : is_op(c, "add_all_at") ? cc_slist_add_all_at(l, L[from], idx)
                         : is_op(c, "splice") ? cc_slist_splice(l, L[from]) : cc_slist_splice_at(l, L[from], idx);
         o_stat(st); o(" ");
